@@ -1422,3 +1422,149 @@ Lemma combo_plan_nonvacuous :
          (0%N, (Some (PInt 11), NGreater, KMaximum 10)); (1%N, (Some (PInt 0), NSmaller, KMinimum 1));
          (0%N, (Some (PInt 11), NGreater, KMaximum 10)) ].
 Proof. vm_compute. repeat split. Qed.
+(* ====================================================================== *)
+(* Part 6: _negative_type                                                  *)
+(* ====================================================================== *)
+
+Lemma jtype_eqb_refl t : jtype_eqb t t = true.
+Proof. destruct t; cbn; try reflexivity. apply N.eqb_refl. Qed.
+
+Lemma conforms_type_false types k :
+  (forall t, has_type t k = true -> type_in t types = false) ->
+  existsb (fun t => has_type t k) types = false.
+Proof.
+  induction types as [|a r IH]; intros H; cbn; [reflexivity|].
+  destruct (has_type a k) eqn:Ha.
+  - specialize (H a Ha). unfold type_in in H. cbn in H. rewrite jtype_eqb_refl in H. discriminate H.
+  - cbn. apply IH. intros t Ht. specialize (H t Ht). unfold type_in in *. cbn in H.
+    apply orb_false_iff in H. destruct H as [_ H]. exact H.
+Qed.
+
+(* the heart: whatever the membership test, a class a consulted strategy can return belongs to no listed type *)
+Lemma negative_type_plan_with_sound mem l s k :
+  negative_type_plan_with mem = TypePlan l -> In s l -> draws s k = true ->
+  forall t, has_type t k = true -> mem t = false.
+Proof.
+  unfold negative_type_plan_with. cbn [strategies_for_type filter fst].
+  destruct (mem TInteger) eqn:EI; destruct (mem TNumber) eqn:EN; destruct (mem TBoolean) eqn:EB;
+  destruct (mem TNull) eqn:EU; destruct (mem TString) eqn:ES; destruct (mem TArray) eqn:EA;
+  destruct (mem TObject) eqn:EO; cbn; intros Hp Hin Hd t Ht; try discriminate Hp;
+  injection Hp as Hp; subst l; cbn in Hin;
+  repeat (destruct Hin as [Hin|Hin]; [subst s|]); try contradiction;
+  destruct k; try discriminate Hd; destruct t; try discriminate Ht; assumption.
+Qed.
+
+Lemma negative_type_values_violate kw l s k :
+  negative_type_plan kw = TypePlan l -> In s l -> draws s k = true -> conforms_type kw k = false.
+Proof.
+  intros Hp Hin Hd. unfold conforms_type. apply conforms_type_false.
+  intros t Ht. exact (negative_type_plan_with_sound _ l s k Hp Hin Hd t Ht).
+Qed.
+
+(* the plan depends on the keyword only through the membership test: order, repetitions and the
+   string / one-element-list form are irrelevant *)
+Lemma negative_type_plan_with_ext m1 m2 :
+  (forall t, m1 t = m2 t) -> negative_type_plan_with m1 = negative_type_plan_with m2.
+Proof.
+  intros H. unfold negative_type_plan_with. cbn [strategies_for_type filter fst].
+  rewrite !H. reflexivity.
+Qed.
+
+Lemma negative_type_plan_same_set kw1 kw2 :
+  (forall t, type_in t (types_of kw1) = type_in t (types_of kw2)) ->
+  negative_type_plan kw1 = negative_type_plan kw2.
+Proof. intros H. unfold negative_type_plan. apply negative_type_plan_with_ext. exact H. Qed.
+
+Lemma negative_type_plan_str_is_singleton t : negative_type_plan (TyStr t) = negative_type_plan (TyList [t]).
+Proof. reflexivity. Qed.
+
+(* totality: KeyError exactly when number and integer are both listed *)
+Lemma negative_type_plan_total kw :
+  not_number_and_integer kw = true <-> exists l, negative_type_plan kw = TypePlan l.
+Proof.
+  unfold not_number_and_integer, negative_type_plan, negative_type_plan_with.
+  cbn [strategies_for_type filter fst].
+  destruct (type_in TInteger (types_of kw)) eqn:EI; destruct (type_in TNumber (types_of kw)) eqn:EN;
+  destruct (type_in TBoolean (types_of kw)); destruct (type_in TNull (types_of kw));
+  destruct (type_in TString (types_of kw)); destruct (type_in TArray (types_of kw));
+  destruct (type_in TObject (types_of kw)); cbn;
+  (split; [intros H; try discriminate H; eexists; reflexivity | intros [l Hl]; try discriminate Hl; reflexivity]).
+Qed.
+
+(* when integer is listed (without number) no integer-valued class is ever drawn: the number slot
+   holds the fractional floats, the integer slot is gone *)
+Lemma negative_type_integer_listed kw l :
+  type_in TInteger (types_of kw) = true -> negative_type_plan kw = TypePlan l ->
+  In SFracFloats l /\ ~ In SNumeric l /\ ~ In SIntegers l.
+Proof.
+  unfold negative_type_plan, negative_type_plan_with. cbn [strategies_for_type filter fst].
+  intros EI. rewrite EI.
+  destruct (type_in TNumber (types_of kw)) eqn:EN;
+  destruct (type_in TBoolean (types_of kw)); destruct (type_in TNull (types_of kw));
+  destruct (type_in TString (types_of kw)); destruct (type_in TArray (types_of kw));
+  destruct (type_in TObject (types_of kw)); cbn; intros Hp; try discriminate Hp; injection Hp as Hp; subst l; cbn;
+  (split; [tauto|]); split; intros H; repeat (destruct H as [H|H]; [discriminate H|]); exact H.
+Qed.
+
+(* the sentinel agrees with the code on every plain-string keyword ... *)
+Lemma raw_keyword_plan_agrees_on_strings t :
+  negative_type_plan_raw_keyword (TyStr t) = negative_type_plan (TyStr t).
+Proof. destruct t; reflexivity. Qed.
+
+(* ... and breaks the property on a list: type [integer, null] consults integers | floats, whose
+   minimal example 0 is an integer *)
+Definition w_nullable_integer : type_kw := TyList [TInteger; TNull].
+Lemma raw_keyword_plan_refuted :
+  not_number_and_integer w_nullable_integer = true
+  /\ negative_type_plan_raw_keyword w_nullable_integer = TypePlan [SNumeric; SBooleans; SText; SArrays; SObjects]
+  /\ draws SNumeric KInt = true
+  /\ conforms_type w_nullable_integer KInt = true
+  /\ negative_type_plan w_nullable_integer = TypePlan [SFracFloats; SBooleans; SText; SArrays; SObjects].
+Proof. vm_compute. repeat split. Qed.
+
+Lemma raw_keyword_plan_refuted_ex :
+  exists (kw : type_kw) (l : list strat) (s : strat) (k : vclass),
+    not_number_and_integer kw = true /\ negative_type_plan_raw_keyword kw = TypePlan l /\ In s l
+    /\ draws s k = true /\ conforms_type kw k = true
+    /\ negative_type_plan kw = TypePlan [SFracFloats; SBooleans; SText; SArrays; SObjects].
+Proof.
+  exists w_nullable_integer, [SNumeric; SBooleans; SText; SArrays; SObjects], SNumeric, KInt.
+  destruct raw_keyword_plan_refuted as (H1 & H2 & H3 & H4 & H5).
+  repeat split; try assumption. left. reflexivity.
+Qed.
+
+(* non-vacuity: exact plans *)
+Lemma negative_type_plan_examples :
+  negative_type_plan (TyStr TInteger) = TypePlan [SFracFloats; SBooleans; SNone; SText; SArrays; SObjects]
+  /\ negative_type_plan (TyList [TInteger]) = TypePlan [SFracFloats; SBooleans; SNone; SText; SArrays; SObjects]
+  /\ negative_type_plan (TyStr TNumber) = TypePlan [SBooleans; SNone; SText; SArrays; SObjects]
+  /\ negative_type_plan (TyList [TNumber; TNull]) = TypePlan [SBooleans; SText; SArrays; SObjects]
+  /\ negative_type_plan (TyList [TString; TInteger]) = TypePlan [SFracFloats; SBooleans; SNone; SArrays; SObjects]
+  /\ negative_type_plan (TyList [TBoolean; TNull]) = TypePlan [SIntegers; SNumeric; SText; SArrays; SObjects]
+  /\ negative_type_plan (TyList []) = TypePlan [SIntegers; SNumeric; SBooleans; SNone; SText; SArrays; SObjects]
+  /\ negative_type_plan (TyList [TOther 7%N]) = TypePlan [SIntegers; SNumeric; SBooleans; SNone; SText; SArrays; SObjects]
+  /\ negative_type_plan (TyList [TNumber; TInteger]) = TypeRaisesKeyError
+  /\ negative_type_plan (TyList [TInteger; TNumber; TNull]) = TypeRaisesKeyError.
+Proof. vm_compute. repeat split. Qed.
+
+(* the negatives of minLength / maxLength under a type list *)
+Lemma length_negative_string_only declared k :
+  string_only (length_request_type declared) = true ->
+  conforms_type (length_request_type declared) k = true -> length_applies k = true.
+Proof.
+  unfold string_only, conforms_type. generalize (types_of (length_request_type declared)) as l.
+  induction l as [|a r IH]; cbn; intros Hs Hc; [discriminate Hc|].
+  apply andb_true_iff in Hs. destruct Hs as [Ha Hr].
+  apply orb_true_iff in Hc. destruct Hc as [Hc|Hc].
+  - destruct a; try discriminate Ha. destruct k; try discriminate Hc. reflexivity.
+  - exact (IH Hr Hc).
+Qed.
+
+Lemma length_negative_type_list_refuted :
+  exists declared k,
+    conforms_type (length_request_type declared) k = true /\ length_applies k = false
+    /\ string_only (length_request_type declared) = false.
+Proof. exists (Some (TyList [TString; TNull])), KNull. vm_compute. repeat split. Qed.
+
+Lemma length_negative_absent_type_is_string_only : string_only (length_request_type None) = true.
+Proof. reflexivity. Qed.
